@@ -1,6 +1,6 @@
 import Lean.Data.Json
 import Ktm.CoreProps
-import Ktm.Persist
+import Ktm.PersistOps
 import Ktm.Metrics
 import Ktm.Ranking
 /-! Line-protocol driver for the `oracle` suite (C01–C03, C04-ranking, C07, C08): the implementation's
@@ -99,6 +99,10 @@ def doWriteOracle (st : St) : St :=
   let (st, ok) := spend st
   if ok then { st with disk := writeOracle st.disk st.o } else st
 
+/-- the writes of an operation as `Core.writesOf` lists them, each subject to the crash budget -/
+def applyWrites (st : St) (ws : List W) : St :=
+  ws.foldl (fun st w => match w with | .trial id => doWriteTrial st id | .oracle => doWriteOracle st) st
+
 def rankOf (st : St) (n : Nat) : List Nat :=
   -- `get_best_trials`: scores as exact rationals, ranked through `Ranking.bestTrials`
   let ts : List Ranking.T := (List.range st.o.trials.length).map (fun i =>
@@ -129,13 +133,11 @@ def handle (st : Option St) (j : Json) : Option St × String :=
           | some "IDLE" => .idle
           | _ => .stop
         | none => .stop
-      let n0 := st.o.trials.length
-      let rq0 := st.o.retryQ.length
-      let r := create alg { st.o with alg := some pop } tid 0
-      let st := { st with o := r.1 }
+      let o0 := { st.o with alg := some pop }
+      let ws := writesOf alg o0 (.create tid 0)
+      let r := create alg o0 tid 0
       -- file writes of `create_trial`: new trial ⇒ trial file then oracle file; retry ⇒ oracle file only
-      let st := if r.1.trials.length > n0 then doWriteOracle (doWriteTrial st n0)
-                else if r.1.retryQ.length < rq0 then doWriteOracle st else st
+      let st := applyWrites { st with o := r.1 } ws
       let out := match r.2 with
         | .trial id v => s!"RUNNING {pad st.width id} {v}"
         | .idle => "IDLE"
@@ -150,7 +152,7 @@ def handle (st : Option St) (j : Json) : Option St × String :=
       | none => (some st, "BAD")
       | some _ =>
         let st := setObs st id (Metrics.update (getObs st id) step v)
-        (some (doWriteTrial st id), "ok")
+        (some (applyWrites st (writesOf alg st.o (.update id none))), "ok")
     | .ok "end", some st =>
       let id := (j.getObjValAs? Nat "id").toOption.getD 0
       let oc : Outcome := match (j.getObjValAs? String "status").toOption with
@@ -159,6 +161,7 @@ def handle (st : Option St) (j : Json) : Option St × String :=
       let best := Metrics.bestValue st.minimize (getObs st id)
       let sc : Option Int := match best with | some (.val _) => some 0 | _ => none
       let a : Alg V A := { alg with scoreOf := fun _ => sc }
+      let ws := writesOf a st.o (.endT id oc)
       let r := endT a st.o id oc
       match r.2 with
       | .abort => (some { st with o := r.1 }, "ABORT")
@@ -168,7 +171,7 @@ def handle (st : Option St) (j : Json) : Option St × String :=
             { st' with side := { st'.side with score := assocSet st'.side.score id (best.getD .nan) } } else st'
         -- metrics are dropped when the trial is queued for retry
         let st' := if r.1.retryQ.contains id && !(st.o.retryQ.contains id) then setObs st' id [] else st'
-        let st' := doWriteOracle (doWriteTrial st' id)
+        let st' := applyWrites st' ws
         let scoreStr := match best, oc with
           | some v, .completed => fvStr v
           | _, _ => "-"
